@@ -1,25 +1,238 @@
 package main
 
-// Concurrency constructs (go, channels, select): fixed abstraction rules (DESIGN.md 2.5).
+// Concurrency constructs (go, channels, select): fixed abstraction rules (DESIGN.md 2.5). These are
+// ASSUMED semantics, listed in every evidence file that uses them:
+//   * go f(args): the spawned function's preconditions are proved at the go statement (kind spawn-pre); the
+//     goroutine's effects are not applied to the spawner's state (each goroutine body is verified separately,
+//     against its own contract and frame).
+//   * ch <- m: ghost event: $sends_<ch> += 1, $sent_<ch> = m (per function activation).
+//   * <-ch: ghost event $recvs_<ch> += 1; the received value is arbitrary but satisfies the function's
+//     `receives <ch>: P($msg)` clause (channel invariant: assumed at receives; justified by the spawn
+//     preconditions and the senders' contracts).
+//   * select: non-deterministic choice among its cases (plus default when non-blocking).
 
 import (
+	"fmt"
+	"go/token"
+	"go/types"
+
 	"golang.org/x/tools/go/ssa"
 )
 
+// chanName gives the source-level name of the channel an SSA value denotes ("" if unknown).
+func chanName(v ssa.Value) string {
+	switch x := v.(type) {
+	case *ssa.Parameter:
+		return x.Name()
+	case *ssa.FreeVar:
+		return x.Name()
+	case *ssa.UnOp:
+		if x.Op == token.MUL {
+			switch a := x.X.(type) {
+			case *ssa.Alloc:
+				return a.Comment
+			case *ssa.FreeVar:
+				return a.Name()
+			}
+		}
+	case *ssa.MakeChan:
+		return x.Name()
+	}
+	return ""
+}
+
+// registerChanGhosts scans a function for channel operations and records the ghost variables they use.
+func (e *Engine) registerChanGhosts(f *ssa.Function) {
+	if e.chanGhostT == nil {
+		e.chanGhostT = map[string]types.Type{}
+	}
+	add := func(ch ssa.Value) {
+		n := chanName(ch)
+		ct, ok := ch.Type().Underlying().(*types.Chan)
+		if n == "" || !ok {
+			return
+		}
+		e.chanGhostT["$sends_"+n] = tInt
+		e.chanGhostT["$recvs_"+n] = tInt
+		e.chanGhostT["$sent_"+n] = ct.Elem()
+		e.chanGhostT["$received_"+n] = ct.Elem()
+	}
+	for _, b := range f.Blocks {
+		for _, in := range b.Instrs {
+			switch in := in.(type) {
+			case *ssa.Send:
+				add(in.Chan)
+			case *ssa.UnOp:
+				if in.Op == token.ARROW {
+					add(in.X)
+				}
+			case *ssa.Select:
+				for _, st := range in.States {
+					add(st.Chan)
+				}
+			}
+		}
+	}
+}
+
+func (s *State) chanGhostBump(name string) {
+	cur := s.ghostGet(name, tInt)
+	s.ghost[name] = mkInt(app("+", cur.Terms[0], "1"))
+}
+
 func (s *State) execGo(g *ssa.Go, where string) {
-	s.unsupported("go statement at %s", where)
+	c := g.Common()
+	args := s.evalArgs(c)
+	callee := c.StaticCallee()
+	var binds []Val
+	if callee == nil {
+		fv := s.valueOf(c.Value)
+		callee = fv.Fn
+		binds = fv.Binds
+	} else if mc, ok := c.Value.(*ssa.MakeClosure); ok {
+		binds = s.valueOf(mc).Binds
+	}
+	s.eng.assumptionsUsed["go statements: the spawned function's preconditions are proved at the spawn site; goroutine bodies are verified separately against their own contracts; scheduling, fairness and the memory model are not modelled"] = true
+	if callee == nil {
+		s.unsupported("go statement with an unknown function value at %s", where)
+	}
+	spec, ok := s.eng.specs[s.eng.fnKey(callee)]
+	if !ok {
+		s.oblige("spawn-pre", "uncontracted:"+callee.Name(), s.defaultProps(), "false", where, "goroutine body has no contract")
+		return
+	}
+	env := &SpecEnv{st: s, vars: map[string]Val{}, old: s.snapshot()}
+	if callee.Pkg != nil {
+		env.pkg = callee.Pkg.Pkg
+	} else if callee.Parent() != nil {
+		env.pkg = s.fn.Pkg.Pkg
+	}
+	for i, p := range callee.Params {
+		if i < len(args) {
+			env.vars[p.Name()] = args[i]
+		}
+	}
+	for i, fv := range callee.FreeVars {
+		if i < len(binds) {
+			env.vars["&"+fv.Name()] = binds[i]
+		}
+	}
+	for _, cl := range spec.Requires {
+		cl := cl
+		err := safeSpec(func() {
+			s.oblige("spawn-pre", spec.Name+"/"+cl.Name, unionProps(cl.Props, s.defaultProps()), env.evalBool(cl.Expr), where, cl.Src)
+		})
+		if err != nil {
+			s.coll.specErr(s.eng, s.fn, cl, err)
+		}
+	}
+	// ghost: number of goroutines started per spawn site kind
+	key := "$spawns_" + callee.Name()
+	cur := s.ghostGet(key, tInt)
+	s.ghost[key] = mkInt(app("+", cur.Terms[0], "1"))
+	for i, a := range args {
+		sh := shapeOf(a.T)
+		if len(sh) == 1 && a.Loc == nil {
+			s.ghost[fmt.Sprintf("$spawnarg_%s_%d", callee.Name(), i)] = a
+		}
+	}
 }
 
 func (s *State) execSend(in *ssa.Send, where string) {
-	s.unsupported("channel send at %s", where)
+	ch := s.valueOf(in.Chan)
+	v := s.valueOf(in.X)
+	s.oblige("safety", "nil-chan-send", []string{"C19"}, not(eq(ch.Terms[0], "0")), where, "")
+	n := chanName(in.Chan)
+	if n == "" {
+		s.unsupported("send on an unnamed channel at %s", where)
+	}
+	s.eng.assumptionsUsed["channel send/receive: ghost events per named channel; a received message satisfies the receiver's `receives` clause (channel invariant, assumed)"] = true
+	s.chanGhostBump("$sends_" + n)
+	s.ghost["$sent_"+n] = v
 }
 
-func (s *State) execSelect(in *ssa.Select, where string) Val {
-	s.unsupported("select at %s", where)
-	return Val{}
+func (s *State) recvValue(chv ssa.Value, t types.Type) Val {
+	n := chanName(chv)
+	v := s.freshVal("recv:"+n, t)
+	if n == "" {
+		return v
+	}
+	// channel invariant of the enclosing function
+	if s.spec != nil {
+		for _, cl := range s.spec.Receives {
+			if cl.Name != n {
+				continue
+			}
+			cl := cl
+			env := s.specEnv().with("$msg", v)
+			_ = safeSpec(func() { s.assume(env.evalBool(cl.Expr)) })
+			s.eng.assumptionsUsed["channel invariant (assumed at receive) on "+n+": "+cl.Src] = true
+		}
+	}
+	return v
 }
 
 func (s *State) execRecv(in *ssa.UnOp, ch Val, where string) Val {
-	s.unsupported("channel receive at %s", where)
-	return Val{}
+	n := chanName(in.X)
+	et := in.X.Type().Underlying().(*types.Chan).Elem()
+	v := s.recvValue(in.X, et)
+	if n != "" {
+		s.chanGhostBump("$recvs_" + n)
+		s.ghost["$received_"+n] = v
+	}
+	if in.CommaOk {
+		ok := s.fresh("recv_ok", sBool)
+		out := Val{T: in.Type()}
+		out.Terms = append(out.Terms, v.Terms...)
+		out.Terms = append(out.Terms, ok)
+		return out
+	}
+	v.T = in.Type()
+	return v
+}
+
+func (s *State) execSelect(in *ssa.Select, where string) Val {
+	s.eng.assumptionsUsed["select: non-deterministic choice among its cases (default included when non-blocking)"] = true
+	idx := s.fresh("select_idx", sInt)
+	lo := "0"
+	if !in.Blocking {
+		lo = "(- 1)"
+	}
+	s.assume(and(app("<=", lo, idx), app("<", idx, fmt.Sprint(len(in.States)))))
+	recvOk := s.fresh("select_ok", sBool)
+	out := Val{T: in.Type(), Terms: []string{idx, recvOk}}
+	for k, st := range in.States {
+		if st.Dir == types.RecvOnly {
+			et := st.Chan.Type().Underlying().(*types.Chan).Elem()
+			// the received value only matters when this case is chosen; its invariant is assumed under that condition
+			n := chanName(st.Chan)
+			v := s.freshVal("recv:"+n, et)
+			if s.spec != nil && n != "" {
+				for _, cl := range s.spec.Receives {
+					if cl.Name != n {
+						continue
+					}
+					cl := cl
+					env := s.specEnv().with("$msg", v)
+					_ = safeSpec(func() { s.assume(implies(eq(idx, fmt.Sprint(k)), env.evalBool(cl.Expr))) })
+					s.eng.assumptionsUsed["channel invariant (assumed at receive) on "+n+": "+cl.Src] = true
+				}
+			}
+			if n != "" {
+				cur := s.ghostGet("$recvs_"+n, tInt)
+				chosen := eq(idx, fmt.Sprint(k))
+				s.ghost["$recvs_"+n] = mkInt(ite(chosen, app("+", cur.Terms[0], "1"), cur.Terms[0]))
+				prev := s.ghostGet("$received_"+n, et)
+				nv := Val{T: et}
+				for i := range v.Terms {
+					nv.Terms = append(nv.Terms, ite(chosen, v.Terms[i], prev.Terms[i]))
+				}
+				s.ghost["$received_"+n] = nv
+			}
+			out.Terms = append(out.Terms, v.Terms...)
+		} else {
+			s.unsupported("select with a send case at %s", where)
+		}
+	}
+	return out
 }
